@@ -131,12 +131,6 @@ func main() {
 		for _, t := range o.Tags {
 			rep.Tags[t]++
 		}
-		for _, pf := range pendingFailures {
-			if pf.line == line && o.Fail == "" {
-				o.Fail = pf.why
-				o.Known = pf.known
-			}
-		}
 		impl := Render(o.Impl)
 		fmt.Fprintln(cw, line)
 		fmt.Fprintln(iw, impl)
